@@ -1063,10 +1063,12 @@ class slice(Stream):
         self._check_end()
 
     def update(self, x, who=None, metadata=None):
+        ret = None
         if self.state >= self.star and self.state % self.step == 0:
-            self.emit(x, metadata=metadata)
+            ret = self._emit(x, metadata=metadata)
         self.state += 1
         self._check_end()
+        return ret
 
     def _check_end(self):
         if self.end and self.state >= self.end:
